@@ -2,13 +2,18 @@
 C10 — the far field is the radiation integral of the currents; dBi and V/m agree.
 
 Over ℝ for the model of `Pmn.Model.Far` (free space, ideal and real ground where stated).
-The clause "within 2 % of the exact integral over the straight half-segments" is numerical
-analysis and has no theorem; it is evaluated by the harness (exact sinc integral vs the model's
-point moments) on generated antennas.
+The clause "within 2 % of the exact integral over the straight half-segments" is proved in part
+(`C10_exact_integral_partial`: per straight pulse with equal halves the exact integral of its constant
+current deviates from the point moment by less than (k h)²/6 of that moment, 0.52 % for segments up to λ/18);
+relating the sum over pulses to the *pattern maximum* has no theorem and is evaluated by the harness
+(exact sinc integral vs the model's point moments) on generated antennas.
 -/
 import Pmn.Proofs.FarLemmas
 import Pmn.Model.Const
 import Mathlib.Analysis.SpecialFunctions.Sqrt
+import Mathlib.Analysis.SpecialFunctions.Trigonometric.Bounds
+import Mathlib.Analysis.SpecialFunctions.Integrals.Basic
+import Mathlib.Analysis.Real.Pi.Bounds
 
 namespace Pmn.Props.C10
 open Pmn.Far Pmn.FarLemmas
@@ -233,5 +238,69 @@ theorem C10_pattern_scale (k9c g0 power t p : ℝ) (g : CV3 ℝ) (c : Cx ℝ) (h
   rw [h12_smul, x34_smul]
   unfold linGains
   simp only [lin_scale k9c power c _ hc hP]
+
+/-! ### the exact integral over straight half segments (partial) -/
+
+/-- the phase factor of a constant current along a straight pulse, integrated over its two halves of length `h`
+(`u` runs along the wire, `k = w·c` with `c` the cosine between wire and direction): the real part is
+`2 sin (k h)/k`, the imaginary part vanishes by symmetry -/
+theorem exact_pair_integral (k h : ℝ) (hk : k ≠ 0) :
+    (∫ u in (-h)..h, Real.cos (k * u)) = 2 * Real.sin (k * h) / k ∧ (∫ u in (-h)..h, Real.sin (k * u)) = 0 := by
+  constructor
+  · rw [intervalIntegral.integral_comp_mul_left (fun x => Real.cos x) hk]
+    simp only [integral_cos, mul_neg, Real.sin_neg, smul_eq_mul]
+    field_simp
+    ring
+  · rw [intervalIntegral.integral_comp_mul_left (fun x => Real.sin x) hk]
+    simp [integral_sin]
+
+theorem sinc_bound (x : ℝ) (h0 : 0 < x) : |Real.sin x / x - 1| < x ^ 2 / 6 := by
+  have hs := Real.sin_lt h0
+  have hg := Real.sin_gt_sub_cube h0
+  rw [abs_sub_comm, abs_of_pos]
+  · rw [sub_lt_iff_lt_add, ← sub_lt_iff_lt_add', lt_div_iff₀ h0]
+    nlinarith
+  · rw [sub_pos, div_lt_one h0]; exact hs
+
+/-- **exact integral vs point moment, per pulse** (partial: the property relates the *sum* to the pattern maximum): for
+a straight pulse with two equal halves of length `h`, wave number `w` and any direction (cosine `c ≠ 0`, `|c| ≤ 1`;
+for `c = 0` both are `2h`), the exact integral `2 sin (w c h)/(w c)` of the phase factor deviates from the point
+moment `2h` by at most `(w h)²/6` of that moment -/
+theorem C10_exact_integral_partial (w c h : ℝ) (hw : 0 < w) (hh : 0 < h) (hc : |c| ≤ 1) (hc0 : c ≠ 0) :
+    |2 * Real.sin (w * c * h) / (w * c) - 2 * h| ≤ 2 * h * ((w * h) ^ 2 / 6) := by
+  have hx : 0 < w * |c| * h := by positivity
+  have hxe : Real.sin (w * c * h) / (w * c) = h * (Real.sin (w * |c| * h) / (w * |c| * h)) := by
+    rcases lt_or_gt_of_ne hc0 with hneg | hpos
+    · rw [abs_of_neg hneg]
+      have : w * c * h = -(w * -c * h) := by ring
+      rw [this, Real.sin_neg]
+      field_simp
+    · rw [abs_of_pos hpos]; field_simp
+  have : 2 * Real.sin (w * c * h) / (w * c) - 2 * h = 2 * h * (Real.sin (w * |c| * h) / (w * |c| * h) - 1) := by
+    rw [mul_div_assoc, hxe]; ring
+  rw [this, abs_mul, abs_of_pos (by positivity : (0 : ℝ) < 2 * h)]
+  apply mul_le_mul_of_nonneg_left _ (by positivity)
+  refine (sinc_bound _ hx).le.trans ?_
+  have : w * |c| * h ≤ w * h := by
+    have := mul_le_mul_of_nonneg_left hc (by positivity : (0 : ℝ) ≤ w * h)
+    nlinarith
+  have h2 : (w * |c| * h) ^ 2 ≤ (w * h) ^ 2 := pow_le_pow_left₀ hx.le this 2
+  linarith
+
+/-- for segments up to 1/18 wavelength (`h` = half a segment) that is less than 0.52 % -/
+theorem C10_exact_integral_lambda18 (lam d : ℝ) (hl : 0 < lam) (hd : 0 < d) (h18 : d ≤ lam / 18) :
+    (2 * Real.pi / lam * (d / 2)) ^ 2 / 6 < 0.0052 := by
+  have hp := Real.pi_lt_d2
+  have hp0 := Real.pi_pos
+  have h1 : 2 * Real.pi / lam * (d / 2) ≤ Real.pi / 18 := by
+    rw [div_mul_eq_mul_div, div_le_div_iff₀ hl (by norm_num)]
+    nlinarith
+  have h0 : 0 ≤ 2 * Real.pi / lam * (d / 2) := by positivity
+  have h2 : (2 * Real.pi / lam * (d / 2)) ^ 2 ≤ (Real.pi / 18) ^ 2 := pow_le_pow_left₀ h0 h1 2
+  have h3 : (Real.pi / 18) ^ 2 < (3.15 / 18) ^ 2 := by
+    apply pow_lt_pow_left₀ _ (by positivity) (by norm_num)
+    exact div_lt_div_of_pos_right hp (by norm_num)
+  norm_num at h3 ⊢
+  linarith
 
 end Pmn.Props.C10
